@@ -42,7 +42,8 @@ func H_C20_bt_inputs() {
 	switch op {
 	case 0:
 		err, panicked = c20Call(func() error {
-			_, e := s.CreateTable(vCtx(), &btapb.CreateTableRequest{Parent: vParent, TableId: "x"}) // Table absent
+			id := []string{"x", ""}[vChoice("create.table-id", 0, 1)]
+			_, e := s.CreateTable(vCtx(), &btapb.CreateTableRequest{Parent: vParent, TableId: id}) // Table absent
 			return e
 		})
 		wantNotFound = false
@@ -161,6 +162,9 @@ func H_C20_bt_inputs() {
 		rows := vReadAll(s)
 		vAssert(len(rows) == 1 && len(rows[0].cells) >= 1, "stored-data-intact")
 	}
+	// ... and its admin surface still answers (a lock leaked on an error path would hang here)
+	_, lerr := s.ListTables(vCtx(), &btapb.ListTablesRequest{Parent: vParent})
+	vAssert(lerr == nil, "admin-surface-still-answers")
 	vReach("c20-bt-inputs")
 }
 
